@@ -5,4 +5,4 @@ Extraction Language OCaml.
 Extraction "model.ml" base_anchor run conn_run resp_of served wants_close
   req_preserved_b res_preserved_b req_hdrs_preserved_b res_hdrs_preserved_b
   c01_req_ok c01_res_ok c01_frm_ok res_framing_preserved_b framing_ok wf_ex c01_close_ok c01_ok wf_req ua_ok host_ok
-  wreq_equiv wres_equiv obs_agree req_preserved_e with_body nominated norm_pq str_eqb strs_eqb body_eqb name_eqb e2e_name vals spec_host.
+  wreq_equiv wres_equiv obs_agree req_preserved_e res_preserved_e with_body nominated norm_pq str_eqb strs_eqb body_eqb name_eqb e2e_name vals spec_host.
